@@ -64,6 +64,76 @@ def check(case):
     return tags
 
 
+def check_large_tied(case):
+    """One group of 20 000 - 30 000 rows whose scores take only a few distinct values (rounded probabilities, tree
+    scores) beside smaller groups: the expected constrained metric is still equal across groups.  The data are a
+    deterministic function of the drawn seed; the oracle is the first-principles rate per group (numpy)."""
+    import numpy as np
+    from fairlearn.postprocessing import ThresholdOptimizer
+
+    from vf.learners import ScoreColumn
+
+    rs = np.random.RandomState(case["seed"])
+    scores, labels, groups = [], [], []
+    for g, size in enumerate(case["sizes"]):
+        levels = np.sort(rs.uniform(-1, 2, size=case["levels"]))
+        lv = rs.randint(0, case["levels"], size=size)
+        pr = (lv + 0.5) / case["levels"]  # labels correlate with the score level
+        y = (rs.rand(size) < pr).astype(int)
+        y[0], y[1] = 0, 1
+        scores.append(levels[lv]); labels.append(y); groups.append(np.full(size, g))
+    s, y, g = np.concatenate(scores), np.concatenate(labels), np.concatenate(groups)
+    perm = rs.permutation(len(s))
+    s, y, g = s[perm], y[perm], g[perm]
+    to = ThresholdOptimizer(estimator=ScoreColumn(), constraints=case["constraint"], objective=case["objective"],
+                            grid_size=case["grid"], flip=case["flip"], prefit=True, predict_method="predict")
+    to.fit(s.reshape(-1, 1), y, sensitive_features=g)
+    pmf = np.asarray(to._pmf_predict(s.reshape(-1, 1), sensitive_features=g), dtype=float)
+    if pmf.min() < -T.TOL or pmf.max() > 1 + T.TOL or np.abs(pmf.sum(axis=1) - 1).max() > T.TOL:
+        raise PropertyViolation(f"_pmf_predict is not a distribution per row: min {pmf.min()!r} max {pmf.max()!r}")
+    p = pmf[:, 1]
+    names = ["false_positive_rate", "true_positive_rate"] if case["constraint"] == "equalized_odds" else [T.SIMPLE[case["constraint"]]]
+    for name in names:
+        vals = {}
+        for k in range(len(case["sizes"])):
+            m = g == k
+            if name == "selection_rate":
+                vals[k] = float(p[m].mean())
+            elif name == "true_positive_rate":
+                vals[k] = float(p[m & (y == 1)].mean())
+            elif name == "false_negative_rate":
+                vals[k] = float(1 - p[m & (y == 1)].mean())
+            elif name == "false_positive_rate":
+                vals[k] = float(p[m & (y == 0)].mean())
+            else:
+                vals[k] = float(1 - p[m & (y == 0)].mean())
+        spread = max(vals.values()) - min(vals.values())
+        if not spread <= T.TOL:
+            raise PropertyViolation(
+                f"group sizes {case['sizes']} with {case['levels']} distinct score levels each: expected {name} on the training "
+                f"rows differs between groups by {spread!r}: {vals}; constraint={case['constraint']} flip={case['flip']} grid_size={case['grid']}")
+    tags = ["nt"]
+    if max(case["sizes"]) >= 20000:
+        tags.append("group>=20000_rows")
+    return tags
+
+
+def _large_tied_strategy():
+    from hypothesis import strategies as st
+
+    @st.composite
+    def _s(draw):
+        k = draw(st.integers(2, 3))
+        sizes = [draw(st.sampled_from([20000, 24000, 30000]))] + [draw(st.sampled_from([300, 2000, 21000, 50])) for _ in range(k - 1)]
+        constraint = draw(st.sampled_from(sorted(T.SIMPLE) + ["equalized_odds"]))
+        objective = "accuracy_score" if constraint == "equalized_odds" else draw(st.sampled_from(["accuracy_score", "balanced_accuracy_score"]))
+        return {"sizes": [sizes[i] for i in draw(st.permutations(range(k)))], "levels": draw(st.sampled_from([3, 7, 20, 100])),
+                "seed": draw(st.integers(0, 2**31 - 1)), "constraint": constraint, "objective": objective,
+                "grid": draw(st.sampled_from([10, 1000, 1000])), "flip": draw(st.booleans())}
+
+    return _s()
+
+
 def _strategy():
     return T.to_case()
 
@@ -77,6 +147,8 @@ SUBS = [
         floors={"nt": 0.3, "tie_pos_neg": 0.2, "interior_segment": 0.079, "grid_at_vertex": 0.2,
                 "vertical_segment": 0.05, "p_ignore>0": 0.03, "flip_used": 0.03, "equalized_odds": 0.05,
                 "groups>=3": 0.2}),
+    Sub("parity_large_tied_groups", check_large_tied, strategy=_large_tied_strategy, quick=32, thorough=400, shards=16,
+        shrink_quick=False, floors={"group>=20000_rows": 0.5}),
     Sub("parity_exhaustive", check, enumerate=_enumerate, shards=16, exhaustive=True,
         floors={"nt": 0.26, "p_ignore>0": 0.01, "flip_used": 0.01, "vertical_segment": 0.01}),
 ]
